@@ -3,6 +3,6 @@ NEXT Next
 INVARIANT Emit
 CHECK_DEADLOCK FALSE
 CONSTANTS
-  MaxLen = 6
-  Mode = "char"
+  MaxLen = 3
+  Mode = "atoms"
   Alphabet = {32, 13, 10, 91, 93, 123, 125, 44, 58, 34, 92, 47, 42, 48, 49, 45, 46, 101, 117, 116, 114, 110, 108, 195, 169}
